@@ -162,6 +162,34 @@ def _path(s: State) -> list[str]:
     return [f"{e.loc()} {e.kind}[{e.tok}]({e.detail}) in {e.func.split('.')[-1]}" for e, _ in s.trace if e.kind != "CALL"][:60]
 
 
+def r6_purge(ctx: Context) -> None:
+    base = ctx.repo.cls("BaseOrchestrator")
+    # R6: the auto-purge registration (it makes the orchestrator DELETE the invocation later) belongs to a successful final
+    # transition: reachable only through the transition's normal exit and only under `status.is_final()`
+    from ..flow import cfg_node_of, conditions_at, func_cfg, parent_map
+    from . import c01
+
+    ctx.rule("R6", "an invocation is scheduled for automatic purge only after it really reached a final status: in set_invocation_status the purge registration is reachable only through the normal exit of the atomic transition, under `status.is_final()`")
+    so = base.methods.get("set_invocation_status")
+    if so is None:
+        raise AnalysisError("anchor-vanished: BaseOrchestrator.set_invocation_status")
+    g6, pm6 = func_cfg(ctx.repo, so), parent_map(so.node)
+    from ..flow import call_name as _cn, calls_in as _ci
+
+    trans = [c for c in _ci(so.node) if _cn(c) == "_atomic_status_transition"]
+    purges = [c for c in _ci(so.node) if _cn(c) == "set_up_invocation_auto_purge"]
+    if len(trans) != 1:
+        raise AnalysisError("anchor-vanished: one _atomic_status_transition call in set_invocation_status")
+    tn6 = {n.id for n in cfg_node_of(g6, so.node, trans[0], pm6)}
+    unreached = c01._reachable_without_normal_exit(g6, tn6)
+    for c in purges:
+        after = all(n.id not in unreached for n in cfg_node_of(g6, so.node, c, pm6))
+        final_only = any(isinstance(t, ast.Call) and _cn(t) == "is_final" for t in conditions_at(g6, so.node, c, pm6))
+        okp = after and final_only
+        ctx.add("R6", f"{so.qualname}::purge-scheduled-only-after-successful-final-transition", okp, so.loc(c), "" if okp else ("the purge registration can run although the transition was refused (it precedes the transition or sits on its failure path): a non-final invocation - e.g. RUNNING, after a wrong-owner SUCCESS request - is deleted by auto_purge 24 h later" if not after else "the purge registration is not restricted to final statuses"))
+    ctx.floor("R6", "purge registrations", len(purges), 1)
+
+
 def run(ctx: Context) -> None:
     ctx.rule("R1", "effect paths: every lifecycle operation (role-discovered entry points) is enumerated path by path with resolved callees inlined, generators run as coroutines, loops over unknown iterables unrolled 0..K times, status requests raising exactly when the abstract status set is not within the predecessors of the request or the knowledge is stale")
     ctx.rule("R2", "after every effect (= crash point before the next one) each invocation the actor is responsible for is final, or queued in an available status, or held in PENDING/RUNNING")
@@ -224,6 +252,7 @@ def run(ctx: Context) -> None:
         if i.rule == "R5":
             ctx.add("R5", i.key.split("/", 2)[2], i.ok, i.where, i.detail)
     ctx.floor("R5", "child runner id registrations", ctx.count("R5"), 3)
+    r6_purge(ctx)
     ctx.exhaustive = False
     ctx.not_decided += [
         "liveness ('reaches a final status as long as some runner stays alive'): needs fairness",
